@@ -2,12 +2,12 @@ package verifxfer
 
 import (
 	"bufio"
-	"os/signal"
 	"encoding/hex"
 	"encoding/json"
 	"fmt"
 	"os"
 	"os/exec"
+	"os/signal"
 	"path/filepath"
 	"strings"
 	"sync"
@@ -47,8 +47,9 @@ type childSpec struct {
 	QUICVis    bool
 	Kind       string // "none", "kill" (SIGKILL at hook hit KillAt), "drop" (connection lost at hook hit KillAt)
 	KillAt     int
-	FlushEvery int  // every n-th chunk mark triggers transfer.FlushAllFlushers() concurrently (0 = never)
-	ExitFlush  bool // after a drop: flush metadata before exiting (SIGINT path) or not (os.Exit path)
+	KillSite   string // "" = count every crash-point hit; else only hits of this site count for KillAt
+	FlushEvery int    // every n-th chunk mark triggers transfer.FlushAllFlushers() concurrently (0 = never)
+	ExitFlush  bool   // after a drop: flush metadata before exiting (SIGINT path) or not (os.Exit path)
 	Journal    string
 	Result     string
 	HashDelay  int
@@ -120,6 +121,7 @@ func childMain(sp childSpec) int {
 	}
 	var hits atomic.Int64
 	var marks atomic.Int64
+	var siteHits atomic.Int64
 	var jmu sync.Mutex
 	verifhook.Set(func(name, detail string, n int64) {
 		if name == "send.verify.hash.before" && sp.HashDelay > 0 {
@@ -135,7 +137,14 @@ func childMain(sp childSpec) int {
 		if name == "recv.chunk.marked" && sp.FlushEvery > 0 && marks.Add(1)%int64(sp.FlushEvery) == 0 {
 			go transfer.FlushAllFlushers()
 		}
-		if sp.KillAt > 0 && h == int64(sp.KillAt) {
+		trigger := sp.KillAt > 0 && h == int64(sp.KillAt)
+		if sp.KillSite != "" {
+			trigger = false
+			if name == sp.KillSite && siteHits.Add(1) == int64(sp.KillAt) {
+				trigger = true
+			}
+		}
+		if trigger {
 			switch sp.Kind {
 			case "kill":
 				syscall.Kill(os.Getpid(), syscall.SIGKILL)
